@@ -94,6 +94,17 @@ WRAP = {
 }
 WRAP_OFFSET = {"python": 3, "typescript": 1, "javascript": 1, "rust": 1}
 SKIP = {"lazy.py", "cqs.py"}
+# constructs that span several lines: the reported line must be the construct's own line
+EXTRA = {
+    "magic-continuation.ts": ("typescript", "magic-numbers.numeric-literal", 3,
+                              "function wait(backoff: any) {\n  const delay = backoff(\n    3975,\n    'x'\n  );\n  return delay;\n}\n"),
+    "magic-continuation.js": ("javascript", "magic-numbers.numeric-literal", 3,
+                              "function area(w) {\n  const total = w +\n    3975;\n  return total;\n}\n"),
+    "magic-continuation.py": ("python", "magic-numbers.numeric-literal", 3,
+                              "def wait(backoff):\n    delay = backoff(\n        3975,\n        'x',\n    )\n    return delay\n"),
+    "nest-multiline-header.py": ("python", "nesting.excessive-depth", 2,
+                                 "@decorate\ndef deep(\n    a,\n    b,\n):\n    for i in a:\n        if i:\n            while b:\n                if i > b:\n                    with open('f') as fh:\n                        b = b - i\n    return b\n"),
+}
 _P = {}
 
 
@@ -111,7 +122,7 @@ def _proj():
 def h_offsets(ctx):
     import src.linter_config.ignore as ign
     from src.orchestrator.core import Orchestrator
-    names = tuple(n for n in triggers.T if n not in SKIP) + ("dup",)
+    names = tuple(n for n in triggers.T if n not in SKIP) + ("dup",) + tuple(EXTRA)
     tname = ctx.pick("trigger", names)
     d = _proj()
     nprep = ctx.pick("prepended_lines", (0, 1, 3, 6))
@@ -123,7 +134,7 @@ def h_offsets(ctx):
         texts = dict(triggers.DUP_FILES)
         main = "dup1.py"
     else:
-        lang, prefix, vline, text = triggers.T[tname]
+        lang, prefix, vline, text = triggers.T[tname] if tname in triggers.T else EXTRA[tname]
         texts = {tname: text}
         main = tname
     cm = "#" if lang == "python" else "//"
